@@ -10,7 +10,7 @@ import (
 func init() {
 	register(&Spec{
 		ID:          "C01",
-		Loads:       []LoadSpec{{Patterns: []string{"./lnwallet", "./htlcswitch"}}},
+		Loads:       []LoadSpec{{Patterns: []string{"./lnwallet", "./htlcswitch", "./channeldb"}}},
 		Explanation: "Decides that signer and verifier share one commitment construction (WHO), that the two perspectives of that construction are mirror images (MIRROR), that every dust classification agrees with the HTLC list iterated and selects dust limit and commitment owner by the same predicate (ROLE), that the second-level transactions are built with mirrored arguments by signer and verifier, that capacity / sanity / fee-floor guards dominate every success return, that the fee is debited from the opener only and balances move only by entry.Amount under the not-yet-applied guards (TABLE/GUARD), that the five settle/fail entry points share the lookup / not-modified / preimage guards, and that the update-log counters have a single writer form.",
 		NotDecided: []string{
 			"byte equality of scripts and transactions across the two peers (needs execution of script construction on both sides)",
@@ -406,6 +406,7 @@ func runC01(r *an.Run) {
 				}
 			}
 		})
+	windowDiscipline(r)
 }
 
 func indexParam(fn string) int {
